@@ -182,6 +182,13 @@ func (e *Variable) Assign(newVal reflect.Value, dataContext IDataContext, memory
 		if err == nil {
 			dataContext.IncrementVariableChangeCount()
 			memory.ResetVariable(e)
+			// the owner may have been reached through a selector (F.Arr[0].X = ...): what is remembered about
+			// the same element under another selector expression (F.Arr[F.I].X) must be forgotten as well
+			for owner := e.Variable; owner != nil; owner = owner.Variable {
+				if owner.ArrayMapSelector != nil && owner.Variable != nil {
+					memory.ResetVariable(owner.Variable)
+				}
+			}
 		}
 
 		return err
